@@ -122,13 +122,11 @@ public:
               {
                 ++_threadCount;
                 context = &_threads.append();
+                // start the worker before releasing the lock: as soon as it has terminated, another client may recycle the context
+                context->_pool = this;
+                if (!context->_thread.start(*context, &ThreadContext::proc))
+                  context->_terminated = true;
               }
-            }
-            if (context)
-            {
-              context->_pool = this;
-              if (!context->_thread.start(*context, &ThreadContext::proc))
-                context->_terminated = true;
             }
           }
         }
